@@ -60,11 +60,14 @@ def aa_zones(gpts, sampling, margin=1e-6):
 
 
 def intensity(arr):
-    """Sum |psi|^2 over the last two axes in float64."""
+    """Sum |psi|^2 over the last two axes, accumulated in float64 (no large temporaries)."""
     a = np.asarray(arr)
-    re = a.real.astype(np.float64)
-    im = a.imag.astype(np.float64) if np.iscomplexobj(a) else 0.0
-    return (re * re + im * im).sum(axis=(-2, -1))
+    if not np.iscomplexobj(a):
+        a = a.astype(np.complex128)
+    if not a.flags.c_contiguous:
+        a = np.ascontiguousarray(a)
+    v = a.view(a.real.dtype).reshape(a.shape[:-2] + (-1,))
+    return np.asarray(np.einsum("...k,...k->...", v, v, dtype=np.float64))
 
 
 def bandlimited(rng, lead_shape, gpts, sampling, fill=1.0, shrink=1.0):
